@@ -475,3 +475,33 @@ pub fn stress_world_ids(args: &[u64], out: &mut Out) {
     drop(per_thread);
     let _ = crate::comps::drain_drops();
 }
+
+/// engine 71: reservations at the end of the 32-bit id space.  `nlive` entities exist; one lazy
+/// `reserve_entities(u32::MAX - gap)` (never materialised, never flushed) parks the cursor `gap` ids before
+/// the end; `k` further `reserve_entity` calls must hand out the remaining ids once each and then panic
+/// ("too many entities") rather than wrap around onto ids that are live or already reserved.
+pub fn reserve_exhaust(args: &[u64], out: &mut Out) {
+    use hecs::{Entity, World};
+    let (nlive, gap, k) = (args[0] as usize, args[1] as u32, args[2] as usize);
+    let mut world = World::new();
+    let live: Vec<Entity> = (0..nlive).map(|_| world.spawn(())).collect();
+    let first = {
+        let mut it = world.reserve_entities(u32::MAX - gap);
+        it.next()
+    };
+    let mut got: Vec<Entity> = Vec::new();
+    for _ in 0..k {
+        let w = &world;
+        match std::panic::catch_unwind(std::panic::AssertUnwindSafe(|| w.reserve_entity())) {
+            Ok(h) => {
+                out.push(h.to_bits().into());
+                if live.iter().any(|l| l.id() == h.id()) || first.map_or(false, |f| f.id() == h.id()) || got.iter().any(|g| g.id() == h.id()) {
+                    out.flag(format!("C07: at the end of the id space reserve_entity returned {:?}, an id that is live or already reserved", h));
+                }
+                got.push(h);
+            }
+            Err(_) => out.push(0),
+        }
+    }
+    // never flushed: the world is dropped with the reservations outstanding
+}
